@@ -64,10 +64,10 @@ fn render(
     }
     format!(
         "J={} R={} O={} RO={} v={} sni={} alpn={} c={} e={} s={} g={}",
-        j.full.value(),
-        j.raw.value(),
-        o.full.value(),
-        o.raw.value(),
+        esc(j.full.value()),
+        esc(j.raw.value()),
+        esc(o.full.value()),
+        esc(o.raw.value()),
         vname(v),
         optb(sni),
         optb(alpn),
@@ -188,13 +188,14 @@ fn permutations<T: Clone>(xs: &[T]) -> Vec<Vec<T>> {
     out
 }
 
-/// a hello with a malformed body for one extension type tls-parser decodes (lenient stream)
-fn malformed_known(r: &mut Rng) -> Vec<u8> {
+const MALFORMED_TYPES: [u16; 23] = [0, 1, 10, 11, 13, 15, 16, 22, 23, 28, 42, 43, 45, 48, 49, 13172, 0xff01, 0xffce, 5, 18, 21, 35, 51];
+
+/// a hello with a (probably) malformed body for one extension type tls-parser decodes (lenient stream)
+fn malformed_known(r: &mut Rng, ty: u16, shape: u64) -> Vec<u8> {
     let mut h = gen_hello(r, Profile::Clean);
     let mut es = h.extensions.take().unwrap_or_default();
-    let ty = *r.pick(&[0u16, 1, 10, 11, 13, 15, 16, 22, 23, 28, 42, 43, 45, 48, 49, 13172, 0xff01, 0xffce, 5, 18, 21, 35, 51]);
     es.retain(|e| e.ty() != ty);
-    let body: Vec<u8> = match r.below(6) {
+    let body: Vec<u8> = match shape {
         0 => vec![],
         1 => vec![r.next() as u8],
         2 => vec![0, 9, 1],                 // inner length larger than the body
@@ -469,9 +470,19 @@ pub fn run(ctx: &mut Ctx) {
     }
 
     // ------------------------------------------------------------------ lenient stream: model-compared only
+    for &ty in &MALFORMED_TYPES {
+        for shape in 0..6 {
+            let b = malformed_known(&mut r, ty, shape);
+            emit_raw(ctx, &b);
+        }
+    }
     for _ in 0..ctx.n(600, 12000) {
         let bytes = match r.below(5) {
-            0 | 1 => malformed_known(&mut r),
+            0 | 1 => {
+                let ty = *r.pick(&MALFORMED_TYPES);
+                let shape = r.below(6);
+                malformed_known(&mut r, ty, shape)
+            }
             2 => {
                 let mut v = gen_hello(&mut r, Profile::Wide).encode();
                 let i = r.below(v.len() as u64) as usize;
